@@ -20,7 +20,7 @@ func init() {
 	register(&PropSpec{ID: "C04", Run: simpleRun(SafetyScenario, func(s *Sim) { s.AddOracle(NewOracleC04(s)) }),
 		Rule: "a run is non-trivial iff some commit/pre-commit was sent with exactly M matching preparations or some view was entered with change-view requests from exactly M validators; distinct = distinct ordered delivery sequences"})
 	register(&PropSpec{ID: "C05", Run: simpleRun(SafetyScenario, func(s *Sim) { s.AddOracle(NewOracleC05(s)) }),
-		Rule: "a run is non-trivial iff an API call hit a decided-but-not-reset node, or a Reset skipped heights or changed the validator count; distinct = distinct ordered delivery sequences"})
+		Rule: "a run is non-trivial iff an API call hit a decided-but-not-reset node, or a Reset skipped heights or changed the validator count, or a payload for a future height arrived from a validator that only the grown validator list of that height contains; distinct = distinct ordered delivery sequences"})
 	register(&PropSpec{ID: "C07", Run: simpleRun(AMEVScenario, func(s *Sim) { s.AddOracle(NewOracleC07(s)) }),
 		Rule: "a run is non-trivial iff a (pre)commit arrived before its proposal, a (pre)block callback failed, or the run crossed the enabling height; distinct = distinct ordered delivery sequences"})
 	register(&PropSpec{ID: "C10", Run: simpleRun(SafetyScenario, func(s *Sim) { s.AddOracle(NewOracleC10(s)) }),
